@@ -228,6 +228,47 @@ Theorem C20_merge_ok_sound : forall locals shared outs, entries_ok locals shared
 Proof. exact entries_ok_sound. Qed.
 Print Assumptions C20_merge_ok_sound.
 
+(* ---- string-valued settings ------------------------------------------------------------------- *)
+
+(* EVERY non-empty text written for a string setting is loaded unchanged, whatever characters it
+   contains ('=', '_', the SYG prefix, quotes, unicode ...) and whatever the rule of the setting. *)
+Theorem C20_string_roundtrip : forall r s, s <> EmptyString -> load_string r (Some s) = Some s.
+Proof. exact string_roundtrip. Qed.
+Print Assumptions C20_string_roundtrip.
+
+Theorem C20_string_rejected_iff : forall r w,
+  load_string r w = None <-> (r = Required /\ written_text w = EmptyString).
+Proof. exact load_string_none_iff. Qed.
+Print Assumptions C20_string_rejected_iff.
+
+Theorem C20_strings_roundtrip : forall ws gs, load_strings ws = Some gs ->
+  Forall2 (fun (rw : str_rule * option string) g =>
+             forall s, snd rw = Some s -> s <> EmptyString -> g = s) ws gs.
+Proof. exact strs_roundtrip. Qed.
+Print Assumptions C20_strings_roundtrip.
+
+Theorem C20_strs_ok_model : forall ws, strs_ok ws (load_strings ws) = true.
+Proof. exact strs_ok_model. Qed.
+Print Assumptions C20_strs_ok_model.
+
+Theorem C20_strs_ok_sound : forall ws gs, strs_ok ws (Some gs) = true ->
+  Forall2 (fun (rw : str_rule * option string) g =>
+             forall s, snd rw = Some s -> s <> EmptyString -> g = s) ws gs.
+Proof. exact strs_ok_sound. Qed.
+Print Assumptions C20_strs_ok_sound.
+
+Theorem C20_level_value : forall s l, parse_level s = Some l -> l = s /\ In s level_names.
+Proof. exact parse_level_value. Qed.
+Print Assumptions C20_level_value.
+
+Theorem C20_level_ok_model : forall s, level_ok s (parse_level s) = true.
+Proof. exact level_ok_model. Qed.
+Print Assumptions C20_level_ok_model.
+
+Theorem C20_level_ok_sound : forall s l, level_ok s (Some l) = true -> l = s.
+Proof. exact level_ok_sound. Qed.
+Print Assumptions C20_level_ok_sound.
+
 (* Non-vacuity: the hypotheses are satisfiable and the boundary values behave as stated. *)
 Local Open Scope string_scope.
 Example C20_nonvacuous :
@@ -241,5 +282,10 @@ Example C20_nonvacuous :
            [[("id", JNum 1); ("a", JNum 9); ("b", JBool true)]] = true /\
   process [[("id", JNum 1); ("type", JStr "evm"); ("a", JNum 3)]]
           [[("id", JNum 1); ("a", JNum 9); ("b", JBool true)]]
-  = Some [[("id", JNum 1); ("type", JStr "evm"); ("a", JNum 3); ("b", JBool true)]].
+  = Some [[("id", JNum 1); ("type", JStr "evm"); ("a", JNum 3); ("b", JBool true)]] /\
+  load_strings [(Required, Some "dGVzdGtleQ=="); (Defaulted "out.log", None); (Plain, Some "http://h/p?a=b&c_d=SYG_X")]
+  = Some ["dGVzdGtleQ=="; "out.log"; "http://h/p?a=b&c_d=SYG_X"] /\
+  load_strings [(Required, Some ""); (Plain, Some "x")] = None /\
+  strs_ok [(Plain, Some "dGVzdGtleQ==")] (Some ["dGVzdGtleQ"]) = false /\
+  parse_level "debug" = Some "debug" /\ parse_level "DEBUG" = None.
 Proof. vm_compute. repeat split. Qed.
